@@ -1,5 +1,7 @@
 """Shared driver: enumerate reachable potential-panic sites for a property and
 discharge each (const / type / guard / size / audited) or report it."""
+import json
+import os
 from collections import Counter
 
 from .callgraph import CallGraph
@@ -209,16 +211,23 @@ def run_pps(F, R, rule, entry_names, kinds, cha_crates, registry_names=None, arm
         allowed = cg.registry(resolve_roots(F, registry_names))
     seen = cg.reachable(roots, fnptr_allowed=allowed)
     audited = load_audited()
-    all_fn_names = {strip_generics(f.name) for f in F.fns.values()}
-    all_site_keys = set()
-    for fid in seen:
-        f0 = F.fns[fid]
-        if (crate_scope is None or f0.crate in crate_scope) and (fn_filter is None or fn_filter(f0)):
-            all_site_keys |= {s0.key for s0 in enumerate_sites(f0, kinds)}
+    # per-property view of the table
+    view = {}
+    for k0, e0 in audited.items():
+        if R.pid in e0.get("by_prop", {}):
+            v0 = dict(e0["by_prop"][R.pid])
+            v0.setdefault("snip", e0.get("snip"))
+            view[k0] = v0
+        elif e0.get("props") and R.pid not in e0["props"]:
+            continue
+        elif "why" in e0:
+            view[k0] = e0
     used = set()
     n_fns = 0
     n_sites = 0
     hist = Counter()
+    # pass A: enumerate, apply the automatic discharge rules
+    work = []   # (fid, fn, D, site) still open after the automatic rules
     for fid in sorted(seen):
         fn = F.fns[fid]
         if crate_scope is not None and fn.crate not in crate_scope:
@@ -233,6 +242,9 @@ def run_pps(F, R, rule, entry_names, kinds, cha_crates, registry_names=None, arm
         for s in sites:
             n_sites += 1
             inst = s.key
+            if os.environ.get("TXV_DUMP_SITES"):
+                with open(os.environ["TXV_DUMP_SITES"], "a") as fh:
+                    fh.write(json.dumps({"property": R.pid, "key": inst, "snip": s.snip, "loc": s.loc}) + "\n")
             if armed is not None and not armed(fn, s):
                 R.undecided(rule, inst, "reachable %s site outside the armed scope (not triaged)" % s.kind, s.loc)
                 hist["undecided"] += 1
@@ -242,26 +254,25 @@ def run_pps(F, R, rule, entry_names, kinds, cha_crates, registry_names=None, arm
                 R.ok(rule, inst, how, s.loc, how=how.split(":")[0])
                 hist[how.split(":")[0]] += 1
                 continue
-            ent = audited.get(inst)
-            moved_from = None
-            if ent is None and "|" in inst:
-                # the site may have moved between sibling nested items of one parent function (closure <-> nested fn, renamed
-                # closure index): same parent, same kind/what/ordinal, and the item the entry names no longer exists
-                fnpart, rest = inst.split("|", 1)
-                parent = fnpart.rsplit("::", 1)[0] if "::" in fnpart else None
-                if parent and (fnpart.rsplit("::", 1)[1].startswith("{closure") or parent in all_fn_names):
-                    cands = [k for k in audited if k.endswith("|" + rest) and "|" in k and k not in all_site_keys
-                             and "::" in k.split("|", 1)[0] and k.split("|", 1)[0].rsplit("::", 1)[0] == parent]
-                    if len(cands) == 1:
-                        ent = audited[cands[0]]
-                        moved_from = cands[0].split("|", 1)[0]
-            if ent is not None and R.pid in ent.get("by_prop", {}):
-                # the same callee-level site argued separately per property (different callers reach it)
-                ent = ent["by_prop"][R.pid]
-            elif ent is not None and ent.get("props") and R.pid not in ent["props"]:
-                ent = None
-            elif ent is not None and "why" not in ent:
-                ent = None
+            work.append((fid, fn, D, s))
+    # pass B: match what is left to table entries (survives moves within a function family and shifted ordinals)
+    from .sitematch import Families, match_sites
+    fams = Families(F, cg)
+    R.families = fams
+    site_to_entry = match_sites(fams, [(s.key, s.snip) for _, _, _, s in work], view)
+    from .report import load_known
+    known_req = {kk[2]: d for kk, d in load_known().items() if kk[0] == R.pid and kk[1] == rule and d.get("status") == "known" and d.get("requires")}
+    for fid, fn, D, s in work:
+            inst = s.key
+            if inst in known_req:
+                # a recorded finding that is only the recorded one while its precondition holds (e.g. the order of operations a
+                # repair introduced); otherwise it is a different defect at the same site
+                okk, why = check_requires(F, cg, known_req[inst]["requires"], fn, s, D)
+                if not okk:
+                    R.violation(rule, inst + "/precondition", "the recorded finding at this site assumed a precondition that no longer holds: %s (site: %s `%s`)" % (why, fn.name, s.snip[:70]), s.loc)
+            ek = site_to_entry.get(inst)
+            ent = view.get(ek) if ek is not None else None
+            moved_from = ek.split("|", 1)[0] if ek is not None and ek != inst else None
             if ent is not None:
                 used.add(inst)
                 req = ent.get("requires")
@@ -274,13 +285,16 @@ def run_pps(F, R, rule, entry_names, kinds, cha_crates, registry_names=None, arm
                     R.ok(rule, inst, "audited: %s [re-checked: %s]" % (ent["why"], why), s.loc, how="audited+requires")
                     hist["audited+requires"] += 1
                     continue
+                if os.environ.get("TXV_DUMP_AUDITED"):
+                    with open(os.environ["TXV_DUMP_AUDITED"], "a") as fh:
+                        fh.write(json.dumps({"property": R.pid, "key": inst, "loc": s.loc, "snippet": s.snip, "function": fn.name, "argument": ent["why"]}) + "\n")
                 R.ok(rule, inst, "audited: " + ent["why"] + (" [site moved from %s]" % moved_from if moved_from else ""), s.loc, how="audited")
                 hist["audited"] += 1
                 continue
             hist["undischarged"] += 1
             chain = cg.chain(seen, fid, limit=6)
             R.violation(rule, inst, "potential panic (%s %s) in %s `%s` is reachable from %s (%s) and not discharged by any guard, type or audited argument%s" % (
-                s.kind, s.what, fn.name, s.snip[:90], entry_names[0], " <- ".join(reversed(chain[-4:])), what), s.loc)
+                s.kind, s.what, fn.name, s.snip[:90], entry_names[0], " <- ".join(reversed(chain[-4:])), what), s.loc, detail={"snip": s.snip})
     R.floor(rule, "functions reachable from the entry points", n_fns, floor_fns)
     R.floor(rule, "potential-panic sites examined", n_sites, floor_sites)
     R.extra.setdefault("pps", {})[rule] = {"reachable_fns": len(seen), "fns_in_scope": n_fns, "sites": n_sites, "discharge_histogram": dict(hist),
